@@ -167,7 +167,9 @@ def fold_finish(m: Model, lgs, lg, deep=False):
 def fold_identity_completion(m: Model, lgs, lg):
     """Classical family: after finish(), at every world the Identity extension is an equivalence relation on the
     model's constants and every predicate's extension is closed under replacing an occurrence of a constant by an
-    identical one -- for every order in which the values were set (the stores are dicts: insertion order is the history)."""
+    identical one -- for every order in which the values were set (the stores are dicts: insertion order is the
+    history) and every iteration order of the model's set of constants (constants are small ints here, so sets
+    created by the folded code iterate deterministically; the order of `self.constants` is permuted explicitly)."""
     key = ('identity', _key(m, lg))
     if key in _cache:
         return _cache[key]
@@ -181,7 +183,16 @@ def fold_identity_completion(m: Model, lgs, lg):
     ModelC = bound_class(m, it, lg.modelcls, consulted=consulted)
     AccessC = bound_class(m, it, lg.accesscls, base=defaultdict, consulted=consulted)
     results = []
-    a, b, c = 'a', 'b', 'c'
+    a, b, c = 0, 1, 2
+    NAME = 'abc'
+
+    def show(pred, params):
+        if pred is Identity:
+            return f'{NAME[params[0]]}={NAME[params[1]]}'
+        return pred._name + ''.join(NAME[x] for x in params)
+
+    class ConstSet(tuple):
+        "the model's set of constants with one fixed iteration order"
     scenarios = [
         ('a=b', [(Identity, (a, b))]),
         ('b=a', [(Identity, (b, a))]),
@@ -195,62 +206,72 @@ def fold_identity_completion(m: Model, lgs, lg):
         ('Gac, a=b, b=c', [(G, (a, c)), (Identity, (a, b)), (Identity, (b, c))]),
     ]
     for label, sets in scenarios:
-        mdl = ModelC()
+        probs = {}      # kind -> set of texts
+        for order in itertools.permutations((a, b, c)):
+            mdl = ModelC()
 
-        def mkframe():
-            return Obj('frame', atomics={}, opaques={}, predicates=defaultdict(PI))
-        fr = defaultdict(mkframe)
-        fr[0]
-        for pred, params in sets:
-            fr[0].predicates[pred][params] = 'T'
-        mdl.frames = fr
-        R = AccessC(set)
-        R[0]
-        mdl.R = R
-        mdl.Meta = Obj('Meta', modal=lg.modal, unassigned_value='F', quantified=lg.quantified)
-        mdl.values = Obj('values')
-        mdl.constants = {a, b, c}
-        mdl.sentences = set()
-        mdl._finished = False
-        mdl._is_frame_complete = False
-        try:
-            mdl.finish()
-            err = None
-        except Raised as e:
-            err = e.text
-        except (TypeError, KeyError, AttributeError, IndexError, ValueError, RuntimeError) as e:
-            err = f'{type(e).__name__}: {e}'
-        probs = []
-        if err:
-            probs.append(('raises', f'finish() raises {err}'))
-        else:
+            def mkframe():
+                return Obj('frame', atomics={}, opaques={}, predicates=defaultdict(PI))
+            fr = defaultdict(mkframe)
+            fr[0]
+            for pred, params in sets:
+                fr[0].predicates[pred][params] = 'T'
+            mdl.frames = fr
+            R = AccessC(set)
+            R[0]
+            mdl.R = R
+            mdl.Meta = Obj('Meta', modal=lg.modal, unassigned_value='F', quantified=lg.quantified)
+            mdl.values = Obj('values')
+            mdl.constants = ConstSet(order)
+            mdl.sentences = set()
+            mdl._finished = False
+            mdl._is_frame_complete = False
+            try:
+                mdl.finish()
+                err = None
+            except Raised as e:
+                err = e.text
+            except (TypeError, KeyError, AttributeError, IndexError, ValueError, RuntimeError) as e:
+                err = f'{type(e).__name__}: {e}'
+            if err:
+                probs.setdefault('raises', set()).add(f'finish() raises {err}')
+                continue
             ext = {p for p, v in mdl.frames[0].predicates[Identity].items() if v == 'T'}
-            consts = (a, b, c)
-            if any((x, x) not in ext for x in consts):
-                probs.append(('reflexive', 'identity is not reflexive on the constants'))
-            asym = sorted((x, y) for x, y in ext if (y, x) not in ext)
-            if asym:
-                probs.append(('symmetric', f'identity is not symmetric: {["%s=%s" % p for p in asym]} true but not the converse'))
-            intr = sorted((x, z) for x, y in ext for y2, z in ext if y == y2 and (x, z) not in ext)
-            if intr:
-                probs.append(('transitive', f'identity is not transitive: {["%s=%s" % p for p in intr]} missing'))
+            for x in (a, b, c):
+                if (x, x) not in ext:
+                    probs.setdefault('reflexive', set()).add(show(Identity, (x, x)))
+            for x, y in ext:
+                if (y, x) not in ext:
+                    probs.setdefault('symmetric', set()).add(show(Identity, (y, x)))
+            # transitivity of the symmetric closure is what equivalence adds beyond symmetry
+            sym = ext | {(y, x) for x, y in ext}
+            for x, y in sym:
+                for y2, z in sym:
+                    if y == y2 and (x, z) not in sym:
+                        probs.setdefault('transitive', set()).add(show(Identity, (x, z)))
+            # closure of the extensions under the equivalence generated by the identity facts
+            eq = set(sym)
+            while True:
+                more = {(x, z) for x, y in eq for y2, z in eq if y == y2} - eq
+                if not more:
+                    break
+                eq |= more
             for pred in (F, G):
                 pe = {p for p, v in mdl.frames[0].predicates[pred].items() if v == 'T'}
-                miss = set()
                 for params in pe:
                     for i, x in enumerate(params):
-                        for (u, v) in ext:
+                        for (u, v) in eq:
                             if u == x:
                                 new = params[:i] + (v,) + params[i + 1:]
                                 if new not in pe:
-                                    miss.add(new)
-                if miss:
-                    probs.append(('respects', f'the extension of {pred._name} does not respect identity: {sorted(pred._name + "".join(p) for p in pe)} true, '
-                                  f'{sorted(pred._name + "".join(p) for p in miss)} not'))
+                                    probs.setdefault('respects', set()).add(show(pred, new))
         if not probs:
             results.append((True, label, 'ok', 'identity is an equivalence respected by every extension'))
-        for kind, text in probs:
-            results.append((False, label, kind, text))
+        TEXT = {'reflexive': 'identity is not reflexive on the constants: missing ', 'symmetric': 'identity is not symmetric: missing ',
+                'transitive': 'identity (symmetrically closed) is not transitive: missing ',
+                'respects': 'a predicate extension does not respect identity: missing ', 'raises': ''}
+        for kind in sorted(probs):
+            results.append((False, label, kind, TEXT[kind] + ', '.join(sorted(probs[kind])) + ' (union over the iteration orders of the set of constants)'))
     out = (results, sorted(consulted))
     _cache[key] = out
     return out
